@@ -663,10 +663,18 @@ func checkBlockMapMutation(c *Ctx, rule string) {
 	nSites := 0
 	for _, name := range []string{"(*Client).logs", "(*Client).receipts", "(*Client).traces"} {
 		fn := w.Fn("jrpc2", name)
-		ls := Locksets(fn, nil)
+		reg := NewRegion(fn) // the attach step may live in a helper that is handed the block (or the map)
+		lsOf := map[*ssa.Function]map[ssa.Instruction]lockState{}
+		ls := func(in ssa.Instruction) lockState {
+			f := in.Parent()
+			if lsOf[f] == nil {
+				lsOf[f] = Locksets(f, nil)
+			}
+			return lsOf[f][in]
+		}
 		// blocks obtained from a map lookup
 		var blocks []ssa.Value
-		allInstrs(fn, func(in ssa.Instruction) {
+		reg.AllInstrs(func(in ssa.Instruction) {
 			if lk, ok := in.(*ssa.Lookup); ok {
 				if _, isMap := lk.X.Type().Underlying().(*types.Map); isMap {
 					var v ssa.Value = lk
@@ -689,10 +697,24 @@ func checkBlockMapMutation(c *Ctx, rule string) {
 		}
 		for _, b := range blocks {
 			derived := map[ssa.Value]bool{b: true}
+			alias := map[ssa.Value]bool{b: true} // the block pointer itself, under the names it has in helpers
 			changed := true
 			for changed {
 				changed = false
-				allInstrs(fn, func(in ssa.Instruction) {
+				reg.AllInstrs(func(in ssa.Instruction) {
+					// a derived argument of an inlined helper makes its parameter derived
+					if call, ok := in.(*ssa.Call); ok {
+						if h := regionCallee(call); h != nil && reg.site[h] == ssa.CallInstruction(call) {
+							for i, a := range call.Call.Args {
+								if i < len(h.Params) && derived[a] && !derived[h.Params[i]] {
+									derived[h.Params[i]], changed = true, true
+									if alias[a] {
+										alias[h.Params[i]] = true
+									}
+								}
+							}
+						}
+					}
 					v, ok := in.(ssa.Value)
 					if !ok || derived[v] {
 						return
@@ -724,9 +746,19 @@ func checkBlockMapMutation(c *Ctx, rule string) {
 					}
 				})
 			}
-			lockKey := LockKey{b, ""}
+			held := func(in ssa.Instruction) bool {
+				// the block's lock under any of its names, here or at the call sites above
+				for _, at := range reg.chain(in) {
+					for a := range alias {
+						if ls(at)[LockKey{a, ""}] {
+							return true
+						}
+					}
+				}
+				return false
+			}
 			ord := 0
-			allInstrs(fn, func(in ssa.Instruction) {
+			reg.AllInstrs(func(in ssa.Instruction) {
 				desc := ""
 				switch x := in.(type) {
 				case *ssa.Store:
@@ -735,6 +767,9 @@ func checkBlockMapMutation(c *Ctx, rule string) {
 					}
 				case *ssa.Call:
 					f := staticCallee(x)
+					if f != nil && reg.site[f] == ssa.CallInstruction(x) {
+						return // an inlined helper: its own instructions are judged
+					}
 					if f != nil && f.Signature.Recv() != nil && len(x.Call.Args) > 0 && derived[x.Call.Args[0]] {
 						if _, isPtr := f.Signature.Recv().Type().(*types.Pointer); isPtr {
 							if r, op := lockOp(x); r != nil && op != "" {
@@ -752,8 +787,8 @@ func checkBlockMapMutation(c *Ctx, rule string) {
 				}
 				ord++
 				nSites++
-				c.Check(rule, fmt.Sprintf("%s/mutation#%d", fnName(fn), ord), instrPos(in), ls[in][lockKey],
-					fmt.Sprintf("%s on storage of a block taken from the shared block map; lockset %s", desc, stateString(ls[in])))
+				c.Check(rule, fmt.Sprintf("%s/mutation#%d", fnName(fn), ord), instrPos(in), held(in),
+					fmt.Sprintf("%s on storage of a block taken from the shared block map; lockset %s", desc, stateString(ls(in))))
 			})
 		}
 	}
